@@ -504,3 +504,223 @@ Proof.
   - eapply run_script_sound; eauto.
   - eapply run_script_bounds; eauto.
 Qed.
+
+(* ================================================================================================================
+   The idle read deadline of a pipelined connection ([ix_step]); the code is [wr = false]. *)
+
+Lemma ix_dead_monotone wr idle s l s' :
+  ix_step wr idle s l = Some s' -> ix_dead (ix_conn s) = true -> ix_dead (ix_conn s') = true.
+Proof.
+  destruct s as [[dd sn] ws]. unfold ix_step; cbn. intros H Hd; subst dd.
+  destruct l; cbn in H.
+  - injection H as <-. reflexivity.
+  - discriminate H.
+  - unfold ix_fire_enabled in H; cbn in H. discriminate H.
+  - discriminate H.
+  - injection H as <-. reflexivity.
+  - destruct (nth_error ws i) as [w|]; [|discriminate H].
+    match type of H with (if ?a then _ else _) = _ => destruct a; [|discriminate H] end.
+    destruct (step TPipe w l) as [w'|]; [|discriminate H]. injection H as <-. cbn.
+    destruct l; cbn; try reflexivity.
+    + destruct (ix_on_conn w); reflexivity.
+    + destruct (wr && ix_on_conn w); reflexivity.
+Qed.
+
+(* no step other than a read from the connection ever lowers the time since the deadline was armed:
+   in particular no write, no join, no retry, no step of any exchange *)
+Lemma ix_since_monotone idle s l s' :
+  ix_step false idle s l = Some s' -> ix_is_read s l = false ->
+  ix_since (ix_conn s) + (match l with IxTick => 1 | _ => 0 end) <= ix_since (ix_conn s').
+Proof.
+  destruct s as [[dd sn] ws]. unfold ix_step, ix_is_read; cbn. intros H Hr.
+  destruct l; cbn in H; try discriminate Hr.
+  - injection H as <-. cbn. lia.
+  - destruct (ix_fire_enabled idle _); [|discriminate H]. injection H as <-. cbn. lia.
+  - destruct dd; [discriminate H|]. injection H as <-. cbn. lia.
+  - injection H as <-. cbn. lia.
+  - destruct (nth_error ws i) as [w|]; [|discriminate H].
+    match type of H with (if ?a then _ else _) = _ => destruct a; [|discriminate H] end.
+    destruct (step TPipe w l) as [w'|]; [|discriminate H]. injection H as <-. cbn.
+    destruct l; cbn; try lia.
+    rewrite Hr. cbn. lia.
+Qed.
+
+Lemma ix_silence_accumulates idle ls : forall s s',
+  ix_exec false idle ls s = Some s' -> ix_silent false idle ls s = true ->
+  ix_since (ix_conn s) + ix_ticks ls <= ix_since (ix_conn s').
+Proof.
+  induction ls as [|l ls IH]; cbn; intros s s' H Hs.
+  - injection H as <-. lia.
+  - destruct (ix_step false idle s l) as [s1|] eqn:E; [|discriminate H].
+    apply andb_true_iff in Hs. destruct Hs as [Hr Hs]. apply negb_true_iff in Hr.
+    pose proof (ix_since_monotone _ _ _ _ E Hr) as M.
+    specialize (IH _ _ H Hs). destruct l; cbn in *; lia.
+Qed.
+
+(* after an idle time-out of silence the deadline step is enabled, whatever the exchanges did meanwhile *)
+Lemma ix_fire_enabled_after_silence idle ls s s' :
+  ix_exec false idle ls s = Some s' -> ix_silent false idle ls s = true ->
+  idle <= ix_since (ix_conn s) + ix_ticks ls ->
+  ix_dead (ix_conn s') = false ->
+  exists s'', ix_step false idle s' IxIdleFire = Some s''.
+Proof.
+  intros H Hs Hi Hd. pose proof (ix_silence_accumulates _ _ _ _ H Hs) as M.
+  unfold ix_step, ix_fire_enabled. rewrite Hd. cbn.
+  assert ((idle <=? ix_since (ix_conn s')) = true) as -> by (apply Nat.leb_le; lia).
+  eauto.
+Qed.
+
+(* firing cancels the connection context in every exchange that is on the connection, and touches nothing else *)
+Lemma ix_fire_wakes_all wr idle s s' :
+  ix_step wr idle s IxIdleFire = Some s' ->
+  ix_dead (ix_conn s') = true /\
+  forall i w, nth_error (ix_ws s) i = Some w ->
+    nth_error (ix_ws s') i = Some (ix_kill_w w) /\
+    (ix_on_conn w = true -> cdead (ix_kill_w w) = true) /\
+    pcv (ix_kill_w w) = pcv w /\ retry (ix_kill_w w) = retry w /\ ctxd (ix_kill_w w) = ctxd w /\
+    dials (ix_kill_w w) = dials w.
+Proof.
+  unfold ix_step. destruct (ix_fire_enabled idle s); [|discriminate]. intros H. injection H as <-. cbn.
+  split; [reflexivity|]. intros i w Hn. split; [apply map_nth_error; exact Hn|].
+  unfold ix_kill_w. destruct (ix_on_conn w); cbn; repeat split; auto. discriminate.
+Qed.
+
+(* one woken waiter, healthy server for new connections: connection arm, retry, ONE dial, reply *)
+Lemma ix_waiter_recovers w r :
+  pcv w = PWait false r -> cdead w = true -> ctxd w = false -> retry w < retry_limit TPipe ->
+  exists w', exec TPipe ix_recovery w = Some w' /\ pcv w' = PRet RReply /\
+             dials w' = S (dials w) /\ retry w' = S (retry w) /\ ctxd w' = false.
+Proof.
+  intros Hp Hd Hc Hr. destruct w as [r0 c d p di att f gf gd gg]; cbn in *; subst.
+  unfold ix_recovery, exec, step; cbn.
+  assert ((r0 <? 5) = true) as -> by (apply Nat.ltb_lt; exact Hr). cbn.
+  eexists; repeat split.
+Qed.
+
+(* labels an exchange can take whatever the state of the shared connection *)
+Definition ix_free (l : label) (w : state) : bool :=
+  match l with
+  | EKill | EDeliver _ => negb (ix_on_conn w)
+  | AGet true => false
+  | _ => true
+  end.
+
+Fixpoint ix_fexec (ls : list label) (w : state) : option state :=
+  match ls with
+  | [] => Some w
+  | l :: r => if ix_free l w then match step TPipe w l with Some w' => ix_fexec r w' | None => None end else None
+  end.
+
+Lemma ix_set_nth_same i w : forall l x, nth_error l i = Some x -> nth_error (ix_set_nth i w l) i = Some w.
+Proof.
+  induction i as [|i IH]; intros [|y l] x H; cbn in *; try discriminate; auto. eapply IH; eauto.
+Qed.
+
+Lemma ix_set_nth_other i w : forall l j, j <> i -> nth_error (ix_set_nth i w l) j = nth_error l j.
+Proof.
+  induction i as [|i IH]; intros [|y l] j H; cbn; auto.
+  - destruct j; [congruence|reflexivity].
+  - destruct j; [reflexivity|]. cbn. apply IH. congruence.
+Qed.
+
+Lemma ix_lift idle i ls : forall s w w',
+  nth_error (ix_ws s) i = Some w -> ix_fexec ls w = Some w' ->
+  exists s', ix_exec false idle (map (IxW i) ls) s = Some s' /\
+             nth_error (ix_ws s') i = Some w' /\ ix_conn s' = ix_conn s /\
+             (forall j, j <> i -> nth_error (ix_ws s') j = nth_error (ix_ws s) j).
+Proof.
+  induction ls as [|l ls IH]; intros s w w' Hn H; cbn [ix_fexec] in H; cbn [map ix_exec].
+  - injection H as <-. exists s. auto.
+  - destruct (ix_free l w) eqn:F; [|discriminate H].
+    destruct (step TPipe w l) as [w1|] eqn:E; [|discriminate H].
+    assert (exists s1, ix_step false idle s (IxW i l) = Some s1 /\ nth_error (ix_ws s1) i = Some w1 /\
+                       ix_conn s1 = ix_conn s /\
+                       (forall j, j <> i -> nth_error (ix_ws s1) j = nth_error (ix_ws s) j)) as (s1 & S1 & N1 & C1 & O1).
+    { unfold ix_step. rewrite Hn.
+      assert ((match l with
+               | EKill => negb (ix_on_conn w)
+               | AGet true => negb (ix_dead (ix_conn s))
+               | EDeliver _ => negb (ix_on_conn w && ix_dead (ix_conn s))
+               | _ => true end) = true) as ->.
+      { destruct l; cbn in F; auto.
+        - apply negb_true_iff in F. rewrite F. reflexivity.
+        - destruct pooled; [discriminate F|reflexivity]. }
+      rewrite E. eexists. split; [reflexivity|]. cbn. repeat split.
+      - eapply ix_set_nth_same; eauto.
+      - destruct l; cbn in *; auto. apply negb_true_iff in F. rewrite F. reflexivity.
+      - intros j Hj. apply ix_set_nth_other; auto. }
+    rewrite S1. destruct (IH _ _ _ N1 H) as (s' & X & N & C & O).
+    exists s'. repeat split; auto; try congruence.
+    intros j Hj. rewrite O by auto. apply O1; auto.
+Qed.
+
+Lemma ix_recovery_free w r :
+  pcv w = PWait false r -> cdead w = true -> ctxd w = false -> retry w < retry_limit TPipe ->
+  ix_fexec ix_recovery w = exec TPipe ix_recovery w.
+Proof.
+  intros Hp Hd Hc Hr. destruct w as [r0 c d p di att f gf gd gg]; cbn in *; subst.
+  unfold ix_recovery, ix_fexec, exec, step, ix_free, ix_on_conn; cbn.
+  assert ((r0 <? 5) = true) as -> by (apply Nat.ltb_lt; exact Hr). cbn. reflexivity.
+Qed.
+
+(* the whole statement: a pooled pipelined connection that has been silent for an idle time-out — whatever was
+   written on it meanwhile, however many exchanges joined — is declared dead by a step that is enabled, and then
+   every exchange waiting on it with a live context and retry budget reaches the reply over ONE fresh dial, by steps
+   of its own plus a healthy server's, without disturbing the other exchanges *)
+Lemma ix_silent_pooled_conn_recovered idle ls s0 s :
+  ix_exec false idle ls s0 = Some s -> ix_silent false idle ls s0 = true ->
+  idle <= ix_since (ix_conn s0) + ix_ticks ls ->
+  ix_dead (ix_conn s) = false ->
+  exists sf, ix_step false idle s IxIdleFire = Some sf /\ ix_dead (ix_conn sf) = true /\
+    forall i w r, nth_error (ix_ws s) i = Some w ->
+      pcv w = PWait false r -> ctxd w = false -> retry w < retry_limit TPipe ->
+      exists s2 w2, ix_exec false idle (map (IxW i) ix_recovery) sf = Some s2 /\
+                    nth_error (ix_ws s2) i = Some w2 /\ pcv w2 = PRet RReply /\
+                    dials w2 = S (dials w) /\ retry w2 = S (retry w) /\
+                    (forall j, j <> i -> nth_error (ix_ws s2) j = nth_error (ix_ws sf) j).
+Proof.
+  intros H Hs Hi Hd.
+  destruct (ix_fire_enabled_after_silence _ _ _ _ H Hs Hi Hd) as (sf & F).
+  exists sf. split; [exact F|]. destruct (ix_fire_wakes_all _ _ _ _ F) as (D & W). split; [exact D|].
+  intros i w r Hn Hp Hc Hr.
+  destruct (W i w Hn) as (N & K & P & R & C & DI).
+  assert (ix_on_conn w = true) as On by (unfold ix_on_conn; rewrite Hp; reflexivity).
+  specialize (K On).
+  assert (pcv (ix_kill_w w) = PWait false r) as Hp' by congruence.
+  assert (ctxd (ix_kill_w w) = false) as Hc' by congruence.
+  assert (retry (ix_kill_w w) < retry_limit TPipe) as Hr' by (rewrite R; exact Hr).
+  destruct (ix_waiter_recovers _ _ Hp' K Hc' Hr') as (w2 & X & P2 & D2 & R2 & _).
+  rewrite <- (ix_recovery_free _ _ Hp' K Hc' Hr') in X.
+  destruct (ix_lift idle i _ _ _ _ N X) as (s2 & E2 & N2 & _ & O2).
+  exists s2, w2. repeat split; auto; congruence.
+Qed.
+
+(* sensitivity: if a write re-armed the read deadline ([wr = true], a SetDeadline in write), exchanges arriving more
+   often than the idle time-out would keep a silent connection alive for ever: 10 rounds of (a new exchange gets the
+   pooled connection, writes, one time unit passes) with idle = 3 — silent throughout, 10 units of time, and the
+   deadline step is still disabled; with the code ([wr = false]) it is enabled after the same execution *)
+Fixpoint ix_busy_rounds (n k : nat) : list ixlabel :=
+  match n with
+  | 0 => []
+  | S m => [IxJoin; IxW k (AGet true); IxW k (AWrite true); IxTick] ++ ix_busy_rounds m (S k)
+  end.
+
+Lemma ix_write_rearm_starves :
+  let ls := ix_busy_rounds 10 0 in
+  ix_ticks ls = 10 /\
+  ix_silent true 3 ls ix_init = true /\ ix_silent false 3 ls ix_init = true /\
+  (exists s, ix_exec true 3 ls ix_init = Some s /\ ix_dead (ix_conn s) = false /\ ix_fire_enabled 3 s = false /\
+             length (ix_ws s) = 10 /\ forallb ix_on_conn (ix_ws s) = true) /\
+  (exists s, ix_exec false 3 ls ix_init = Some s /\ ix_dead (ix_conn s) = false /\ ix_fire_enabled 3 s = true).
+Proof.
+  cbv zeta. split; [vm_compute; reflexivity|]. split; [vm_compute; reflexivity|]. split; [vm_compute; reflexivity|].
+  split; eexists; (split; [vm_compute; reflexivity|]); vm_compute; repeat split.
+Qed.
+
+(* the scripted form the harness is compared with *)
+Lemma script_silent_pooled_recovered udp :
+  run_case_idle TPipe udp true [SSilent] [SOk] = Some (mkOut RReply 1 2 false) /\
+  run_case_idle TPipe udp true [SHalf] [SOk] = Some (mkOut RReply 1 2 false) /\
+  run_case_idle TPipe udp false [SSilent] [SOk] = Some (mkOut RErr 0 1 true) /\
+  run_case_idle TPipe udp true [] [SSilent] = Some (mkOut RErr 1 1 false).
+Proof. destruct udp; vm_compute; repeat split. Qed.
